@@ -21,6 +21,9 @@ func histSpec(id string, prof *Profile, rule string, nt func(res *Result) bool) 
 				sc.Prop = id
 				return sc
 			}
+			if id == "C13" && seed%10 < 3 {
+				return subChurn(seed, prof)
+			}
 			p := *prof
 			if tier == "thorough" {
 				p.MaxSteps = prof.MaxSteps * 2
